@@ -64,7 +64,7 @@ META = dict(
 )
 
 NARGS = dict(quick=32, thorough=None)          # arguments per logic (None: all generated)
-NRANDOM = dict(quick=30, thorough=330)
+NRANDOM = dict(quick=30, thorough=270)
 RULE_ROUNDS = dict(quick=1, thorough=2)
 CAP = dict(quick=120, thorough=300)
 SPLIT = dict(quick=1, thorough=4)
